@@ -229,16 +229,30 @@ def judge_edited(case):
     first, second = lib.call(obj.compose), lib.call(untouched.value.compose)
     if not first.ok or not second.ok or bytes(first.value) != bytes(second.value):
         return 'not-rebuildable', [], []
-    done = edits.nested_edits(obj, random.Random(digest(case['spec'])))
+    rng = random.Random(digest(case['spec']))
+    done = edits.nested_edits(obj, rng)
+    # and / or one constructor field takes the value another instance of the class holds (a key rollover, a renamed
+    # host ...); the object has been composed once before (first.value above), so anything it memoised is stale now
+    donors = registry.example_specs(case['spec']['c']) if 'c' in case['spec'] else []
+    if donors and (not done or rng.random() < 0.5):
+        donor = lib.call(specs.build, donors[rng.randrange(len(donors))])
+        if donor.ok:
+            swapped = edits.swap_field(obj, donor.value, rng)
+            if swapped:
+                done = done + [swapped]
     if not done:
         return 'no-edit-site', [], []
     fresh = lib.call(edits.rebuild, obj)
     if not fresh.ok:
         return 'edit-out-of-domain', [], done          # the constructors refuse these field values
+    if edits.state_without_cached_sizes(lib.dump(fresh.value)) != edits.state_without_cached_sizes(lib.dump(obj)):
+        # the constructor normalises what the assignment left as it was (dependent fields, converters): the edited
+        # object is not one the constructors produce - not judged
+        return 'edit-normalised-by-constructor', [], done
     status, findings, reference = round_trip(fresh.value, _is_huge(case['spec']))
     if status != 'ok' or reference is None:
         return 'fresh-twin-' + status, [], done         # a matter of the plain clauses (reported there)
-    locus = done[0].split('[')[0]
+    locus = done[0].split('[')[0].split('.')[0]
     composed = lib.call(obj.compose)
     detail = {'edits': done, 'class': _short(type(obj))}
     if not composed.ok:
